@@ -30,7 +30,7 @@ def run_checker(f, *args, **kw):
     out = buf.getvalue()
     # the verdict OK is "printed" when a line of the output is OK, wherever it stands (feedback lines may precede it)
     lines = [l.strip() for l in out.strip().split('\n')] if out.strip() else []
-    return ('OK' if 'OK' in lines else 'NOT-OK'), out[:300]
+    return ('OK' if 'OK' in lines else 'NOT-OK'), out[:4000]
 
 
 class Scratch:
@@ -142,6 +142,17 @@ class Product:
     def text_lean(self, inst, ans):
         return {'op': 'chk_text', 'name': 'product_' + self.t, 'answer': ans, 'ref': dfa_text(inst['D1']), 'ref2': dfa_text(inst['D2']), 'len': inst['len']}
 
+    def langs(self, inst, ans):
+        """(language of the answer, language the exercise expects) up to the bound, by the independent oracles"""
+        A = self.parse(ans)
+        if A is None:
+            return None
+        D1, D2 = enc.build_dfa(inst['D1']), enc.build_dfa(inst['D2'])
+        op = {'union': lambda x, y: x or y, 'intersection': lambda x, y: x and y, 'symmetric_difference': lambda x, y: x != y}[self.t]
+        n = inst['len']
+        L1, L2 = lang_of(D1, n), lang_of(D2, n)
+        return lang_of(A, n), {w for w in gen.all_words(D1.Sigma, n) if op(w in L1, w in L2)}
+
     def criterion(self, inst, ans):
         A = self.parse(ans)
         if A is None:
@@ -250,6 +261,13 @@ class Reverse:
     def text_lean(self, inst, ans):
         return {'op': 'chk_text', 'name': 'reverse', 'answer': ans, 'ref': dfa_text(inst['D']), 'len': inst['len']}
 
+    def langs(self, inst, ans):
+        A = self.parse(ans)
+        if A is None:
+            return None
+        n = inst['len']
+        return lang_of(A, n), {w[::-1] for w in lang_of(enc.build_dfa(inst['D']), n)}
+
     def criterion(self, inst, ans):
         A = self.parse(ans)
         if A is None:
@@ -295,6 +313,13 @@ class Minimal:
 
     def text_lean(self, inst, ans):
         return {'op': 'chk_text', 'name': 'minimal', 'answer': ans, 'ref': dfa_text(inst['D']), 'len': inst['len']}
+
+    def langs(self, inst, ans):
+        A = self.parse(ans)
+        if A is None:
+            return None
+        n = inst['len']
+        return lang_of(A, n), lang_of(enc.build_dfa(inst['D']), n)
 
     def criterion(self, inst, ans):
         A = self.parse(ans)
@@ -460,6 +485,21 @@ class Dfa2Regexp:
 
     def text_lean(self, inst, ans):
         return {'op': 'chk_text', 'name': 'dfa2regexp', 'answer': ans, 'ref': dfa_text(inst['D']), 'len': inst['len']}
+
+    def langs(self, inst, ans):
+        R = self.parse(ans)
+        if R is None:
+            return None
+        try:
+            spec = enc.regexp_to_spec(R)
+        except Exception:
+            return None
+        if any(len(x) != 1 for x in oracles.rx_symbols(spec)):
+            return None      # the generated parser recovered from a syntax error with a multi-character symbol ('++c' -> symbol '+c'): outside the modelled domain
+        D = enc.build_dfa(inst['D'])
+        n = inst['len']
+        Sig = sorted(set(D.Sigma) | oracles.rx_symbols(spec))
+        return {w for w in gen.all_words(Sig, n) if oracles.rx_matches(spec, w)}, lang_of(D, n)
 
     def criterion(self, inst, ans):
         R = self.parse(ans)
@@ -703,6 +743,19 @@ class Chomsky:
         return {'op': 'chk_text', 'name': 'chomsky', 'answer': ans, 'ref': simple_cfg_text(inst['G']), 'phase': self.phase,
                 'start': inst['start'], 'len': inst['len']}
 
+    def langs(self, inst, ans):
+        A = self.parse(ans)
+        if A is None:
+            return None
+        s = enc.cfg_to_spec(A)
+        rules = [(l, [(a, b) for a, b in r]) for l, _, r in s['R']]
+        G = inst['G']
+        grules = [(l, [(a, b) for a, b in r]) for l, _, r in G['R']]
+        n = inst['len']
+        Sig = sorted(set(G['Sigma']) | set(s['Sigma']))
+        ws = gen.all_words(Sig, n)
+        return {w for w in ws if oracles.cfg_accepts(rules, s['S'], w)}, {w for w in ws if oracles.cfg_accepts(grules, G['S'], w)}
+
     def criterion(self, inst, ans):
         A = self.parse(ans)
         if A is None:
@@ -793,6 +846,12 @@ class LanguageWords:
         return {'op': 'chk_text', 'name': self.kind + '_language_words', 'answer': ans, 'ref': '', 'words': inst['words'],
                 'len': inst['len'], 'max': inst.get('max', 0)}
 
+    def langs(self, inst, ans):
+        A = self.parse(ans)
+        if A is None:
+            return None
+        return lang_of(A, inst['len']), set('' if w in ('ε', '_') else w for w in inst['words'].split())
+
     def lean(self, inst, ans):
         A = self.parse(ans)
         if A is None:
@@ -848,6 +907,16 @@ class CfgLanguageWords:
 
     def text_lean(self, inst, ans):
         return {'op': 'chk_text', 'name': 'cfg_language_words', 'answer': ans, 'ref': '', 'words': inst['words'], 'len': inst['len']}
+
+    def langs(self, inst, ans):
+        A = self.parse(ans)
+        if A is None:
+            return None
+        s = enc.cfg_to_spec(A)
+        rules = [(l, [(a, b) for a, b in r]) for l, _, r in s['R']]
+        ws = set('' if w in ('ε', '_') else w for w in inst['words'].split())
+        Sig = sorted(set(s['Sigma']) | {c for w in ws for c in w})
+        return {w for w in gen.all_words(Sig, inst['len']) if oracles.cfg_accepts(rules, s['S'], w)}, ws
 
     def criterion(self, inst, ans):
         A = self.parse(ans)
@@ -941,6 +1010,23 @@ class AcceptsRejects:
         return {'op': 'chk_text', 'name': self.kind + '_accepts_rejects', 'answer': ans, 'ref': '', 'accepted': inst['accepted'],
                 'rejected': inst['rejected']}
 
+    minimal_cex = False      # the first offending word of the list is printed, not a shortest one
+
+    def langs(self, inst, ans):
+        """(listed words the answer accepts, words listed as to-be-accepted)"""
+        A = self.parse(ans)
+        if A is None:
+            return None
+        ws = lambda t: ['' if w in ('ε', '_') else w for w in t.split()]
+        if self.kind == 'dfa':
+            acc = lambda w: all(c in A.Sigma for c in w) and oracles.dfa_accepts(A, w)
+        else:
+            s = enc.cfg_to_spec(A)
+            rules = [(l, [(a, b) for a, b in r]) for l, _, r in s['R']]
+            acc = lambda w: oracles.cfg_accepts(rules, s['S'], w)
+        listed = set(ws(inst['accepted'])) | set(ws(inst['rejected']))
+        return {w for w in listed if acc(w)}, set(ws(inst['accepted']))
+
 
 class LanguageFile(LanguageWords):
     """`check_<kind>_language_from_file`: the reference automaton is read from a file; the answer is an automaton text.
@@ -1001,6 +1087,13 @@ class LanguageFile(LanguageWords):
 
     def text_lean(self, inst, ans):
         return {'op': 'chk_text', 'name': self.kind + '_language_file', 'answer': ans, 'ref': self.text(inst['X']), 'len': inst['len']}
+
+    def langs(self, inst, ans):
+        A = self.parse(ans)
+        if A is None:
+            return None
+        X = (enc.build_dfa if self.kind == 'dfa' else enc.build_nfa)(inst['X'])
+        return lang_of(A, inst['len']), lang_of(X, inst['len'])
 
 
 ALL = [Product('union'), Product('intersection'), Product('symmetric_difference'), Complement(), Reverse(),
